@@ -31,7 +31,7 @@ def alias_scenarios():
     for driver in ('parfile', 'parblock'):
         def mk():
             sc = treerun.Scn(); sc.driver = driver
-            sc.d(b'/W').d(b'/X').f(b'/X/bystander').f(b'/W/f').f(b'/W/other').d(b'/W/d').f(b'/W/d/m').d(b'/W/d/sub').f(b'/W/d/sub/n').s(b'/W/d/sub/fifo', 'fifo')
+            sc.d(b'/W').d(b'/X').f(b'/X/bystander').f(b'/W/f').f(b'/W/other').d(b'/W/d').f(b'/W/d/m').d(b'/W/d/sub').f(b'/W/d/sub/n').s(b'/W/d/sub/fifo', 'fifo').l(b'/W/d/sub/lnk', b'n').l(b'/W/d/toplnk', b'm')
             sc.d(b'/W/OUT')
             return sc
         for pos in (0, 1):
@@ -45,6 +45,10 @@ def alias_scenarios():
             sc = mk(); sc.l(b'/W/dl', b'/W/d'); sc.opts = ['r', 'T']; sc.paths = [b'dl', b'd']; sc.alias = 'source is an absolute symbolic link to the destination directory'; out.append(sc)
             sc = mk(); sc.d(b'/W/OUT/d'); sc.l(b'/W/OUT/d/sub', b'../../d/sub'); sc.opts = ['r']; sc.paths = pre + [b'd', b'OUT']; sc.alias = 'a sub-directory of the target is a symbolic link back into the source'; out.append(sc)
             sc = mk(); sc.opts = ['r']; sc.paths = pre + [b'd', b'd/..']; sc.alias = 'directory onto itself through ..'; out.append(sc)
+            # a hard-link snapshot of the source tree as destination (cp -al d OUT/; xcp -r d OUT): nested hard links
+            sc = mk(); sc.d(b'/W/OUT/d').h(b'/W/OUT/d/m', b'/W/d/m').d(b'/W/OUT/d/sub').h(b'/W/OUT/d/sub/n', b'/W/d/sub/n'); sc.opts = ['r']; sc.paths = pre + [b'd', b'OUT']
+            sc.alias = 'nested destination entries are hard links of the source files'; out.append(sc)
+            sc = mk(); sc.d(b'/W/OUT/d').l(b'/W/OUT/d/m', b'../../d/m'); sc.opts = ['r']; sc.paths = pre + [b'd', b'OUT']; sc.alias = 'a nested destination entry is a symbolic link to the source file'; out.append(sc)
             sc = mk(); sc.opts = ['r']; sc.paths = pre + [b'd/sub/fifo', b'd/sub/']; sc.alias = 'special file into its own directory'; out.append(sc)
     return out
 
